@@ -240,7 +240,7 @@ PROPS = {
                         S("abilities", "all", ["C15"], 1000, 30000, direct="C15_abilities"),
                         S("hwload", "all", [], 1000, 30000)]},
     "C16": {"streams": [S("pipeline", "table", ["C16", "TC01", "TC02", "TC03", "TC04", "TC05", "TC06", "TC07", "TC08"],
-                          160, 1500)]},
+                          1200, 20000)]},
     "C17": {"streams": [S("bag", "all", [], 0, 0, explicit=bag_scope, exhaustive=True, direct="C17_eq_iff / C17_len / C17_repr"),
                         S("bag", "all", [], 3000, 100000, direct="C17_eq_iff / C17_len / C17_repr")]},
     "C18": {"streams": [S("icase", "all", ["C18"], 0, 0, explicit=icase_scope, exhaustive=True, direct="C18_eq / C18_order / C18_contains / C18_str"),
@@ -420,7 +420,10 @@ def run_property(pid, tier, seed, escalate=False, replay=None):
             reps = engine.run_cases(comp, seed, len(cases), stream["params"], explicit=cases)
         else:
             n = stream[tier] * (3 if escalate else 1) * (fp_mult if tier == "quick" else 1)
-            reps = engine.run_cases(comp, seed, n, stream["params"])
+            # "deep" generation (very long programs, costly for the model's checkers): thorough tier, and the
+            # quick tier when the modelled sources differ from the recorded fingerprints
+            deep = tier == "thorough" or fp_mult > 1
+            reps = engine.run_cases(comp, seed, n, dict(stream["params"], deep=deep))
         _judge_stream(stream, reps, failures, cov, stats)
         new = failures[before:]
         # violation search: correspondence broke but no checker failed -> look further for a failing input
